@@ -80,8 +80,10 @@ Definition sign_authorized (path_bin : bytes) (receipt : bytes) (proof : list by
   (* step 2: BTC tx + extra data *)
   nv <- of_opt (sighash_netvalue mode) ValueError ;;
   let segwit := nv =? 1 in
-  ed <- of_opt (extradata segwit ws ov) OverflowError ;;
-  payload <- of_opt (btc_payload tx nv ed) OverflowError ;;
+  match (match extradata segwit ws ov with Some ed => btc_payload tx nv ed | None => None end) with
+  | None => match SIGN_AUTH_PAYLOAD_OVERFLOW_RESULT with
+            | Some c => ret (inr c) | None => raise (Py OverflowError) end
+  | Some payload =>
   s2 <- on_error_result
           (cr <- send_data_in_chunks CMD_SIGN SIGN_OP_BTC_TX [SIGN_OP_TX_RECEIPT] payload true req1 ;;
            if negb (fst cr) then ret (inr RESP_SIGN_ERROR_UNEXPECTED) else
@@ -104,7 +106,7 @@ Definition sign_authorized (path_bin : bytes) (receipt : bytes) (proof : list by
          if negb (fst cr) then ret (inr RESP_SIGN_ERROR_UNEXPECTED) else
          ret (parse_sig (slice_from (snd cr) OFF_DATAn)))
         (fun sw => ret (inr (lookup_err sw SIGN_AUTH_STEP4_ERRS SIGN_AUTH_STEP4_DEFAULT)))
-  end end end end.
+  end end end end end.
 
 (* hash: None models a hex string bytes.fromhex rejects (-> ERROR_HASH) *)
 Definition sign_unauthorized (path_bin : bytes) (hash : option bytes) : M sign_result :=
